@@ -768,6 +768,64 @@ def g_trailing_zeros(F, rng, tier):
     return out
 
 
+def g_sticky_positions(F, rng, tier):
+    """G27: an exact tie with a short expansion (both parities of the lower neighbour), zeros, and ONE non-zero digit at
+    significant position p - for every p around the digit budget of the big-integer path (MAX_DIGITS - 3 .. + 4: position
+    MAX_DIGITS + 1 is the FIRST dropped digit, the one a "peek" swallows), around twice the budget, and around the chunk
+    multiples next to it - followed by 0 or a few zeros.  Each is spelled integer-only (negative exponent), fraction-only,
+    split at the tie's own point, and split at / next to the budget."""
+    out = []
+    q = tier == "quick"
+    B = F.max_digits
+    ties = []
+    for par in (0, 1):
+        for ef in ((F.bias + F.mbits + 1, F.bias - 3) if q else
+                   (F.bias + F.mbits + 1, F.bias + F.mbits + 9, F.bias + 3, F.bias - 3, F.bias - 20)):
+            fr = (rng.getrandbits(F.mbits) & ~1) | par
+            M, k = F.midpoint((ef << F.mbits) | fr)
+            ties.append(exact_decimal(M, k))
+    ps = set(range(B - 3, B + 5)) | {2 * B - 1, 2 * B, 2 * B + 1, 2 * B + 2} | \
+        {19 * j + d for j in (B // 19, B // 19 + 1) for d in (-1, 0, 1, 2)}
+    if not q:
+        ps |= set(range(B - 25, B + 25)) | set(rng.sample(range(B + 25, 3 * B), 20))
+    for (ds, e10) in ties:
+        n = len(ds)
+        for pos in sorted(ps):
+            if pos <= n:
+                continue
+            for after in ((0, 3) if q else (0, 3, 40)):
+                for dg in (("1",) if q or after else ("1", "7")):
+                    full = ds + "0" * (pos - 1 - n) + dg + "0" * after
+                    L = len(full)
+                    base = e10 + n                      # exponent when the point is in front of the first digit
+                    out.append(mk(F.name, full, "", base - L, "G27:sticky-int"))
+                    out.append(mk(F.name, "", full, base, "G27:sticky-frac"))
+                    for sp in sorted({n, B - 1, B, B + 1} & set(range(1, L))):
+                        out.append(mk(F.name, full[:sp], full[sp:], base - sp, "G27:sticky-split"))
+    return out
+
+
+def g_subnormal_neighbours(F, rng, tier):
+    """G28: the SHORT decimals (17, 18, 19 digits, and 9 for f32) immediately above and below midpoints of deep
+    subnormals (significand fields log-uniform from 1 to 2^mbits): not truncated, so the middle stage alone decides them,
+    with a product of which only a few leading bits survive the subnormal shift"""
+    out = []
+    q = tier == "quick"
+    for _ in range(250 if q else 6000):
+        bl = rng.randrange(1, F.mbits + 1)
+        bits = rng.randrange(1 << (bl - 1), 1 << bl)
+        M, k = F.midpoint(bits)
+        ds, e10 = exact_decimal(M, k)
+        n = len(ds)
+        for t in ((17, 18, 19) if F.name == "f64" else (9, 17, 19)):
+            if n <= t:
+                continue
+            lo = int(ds[:t])
+            out.append(mk(F.name, str(lo), "", e10 + n - t, "G28:sub-below"))
+            out.append(mk(F.name, str(lo + 1), "", e10 + n - t, "G28:sub-above"))
+    return out
+
+
 def g_floats_exact(F, rng, n):
     """exactly representable values (the float itself, not the midpoint)"""
     out = []
